@@ -150,6 +150,7 @@ type Engine struct {
 	inconclusive                 []string
 	sleepDur                     map[int]string // clock reading index -> vf.Sleep duration preceding it
 	curFn                        string
+	clockBudget                  string
 	marshalMemo                  map[string]string
 	dhPairs                      [][2]string
 	macKeys                      []string
@@ -160,6 +161,7 @@ func (e *Engine) resetPath(prefix []decision) {
 	e.S = NewSolver()
 	e.prefix, e.decisions, e.pending, e.fresh, e.clockN, e.occ, e.Inputs = prefix, nil, nil, 0, 0, nil, nil
 	e.forkCount = 0
+	e.clockBudget = ""
 	globals = map[*ssa.Global]Ptr{}
 	allocEpoch, epochCtr, frozenAt = map[*any]int{}, 0, -1
 	msgOf, tsOf = map[string]*msgProv{}, map[*any]TimeV{}
